@@ -144,7 +144,7 @@ def write_tokens(path: str, toks: List[list]) -> None:
 # presentation of a sparse tensor: the same entries at the far end of a very long first mode (subscripts beyond 2^53:
 # hashed 64-bit ids).  The specification sees the small subscripts; the harness translates mode 0 on the way in
 # (object, file) and back on the way out (tokens, object).
-FAR = 2 ** 53
+FAR = 2 ** 62
 
 
 def is_far(c: dict) -> bool:
